@@ -12,6 +12,7 @@ Inductive token :=
 | TStr (s : string)                      (* a JSON string literal *)
 | TFlt (k : Z) (n : Z)                   (* repr of the double nearest k·10^-n *)
 | TRaw (q : Q)                           (* repr of an unrounded double (reduced fraction) *)
+| TNegZero                               (* "-0.0" *)
 | TInt (z : Z)
 | TBool (b : bool)
 | TNull
@@ -21,7 +22,7 @@ Definition q_eqb (a b : Q) : bool := Z.eqb (Qnum a) (Qnum b) && Pos.eqb (Qden a)
 
 Definition token_eqb (a b : token) : bool :=
   match a, b with
-  | TOpen, TOpen | TClose, TClose | TSep, TSep | TNull, TNull => true
+  | TOpen, TOpen | TClose, TClose | TSep, TSep | TNull, TNull | TNegZero, TNegZero => true
   | TStr s, TStr t => String.eqb s t
   | TFlt k n, TFlt k' n' => Z.eqb k k' && Z.eqb n n'
   | TRaw q, TRaw q' => q_eqb q q'
